@@ -397,6 +397,27 @@ impl DecompressorOxide {
     }
 }
 
+/// Read-only observation hooks for the external verification harness.
+#[cfg(feature = "verif-hooks")]
+impl DecompressorOxide {
+    /// Numeric id of the current automaton state (discriminant of the private `State` enum).
+    pub fn verif_state(&self) -> u8 {
+        self.state as u8
+    }
+
+    /// (num_bits, counter, dist, num_extra, finish, block_type) as currently saved.
+    pub fn verif_fields(&self) -> (u32, u32, u32, u8, u8, u8) {
+        (
+            self.num_bits,
+            self.counter,
+            self.dist,
+            self.num_extra,
+            self.finish,
+            self.block_type,
+        )
+    }
+}
+
 impl Default for DecompressorOxide {
     /// Create a new tinfl_decompressor with all fields set to 0.
     #[inline(always)]
